@@ -494,6 +494,24 @@ def gen_case(rng, long_only):
         if sum(abs(x) for x in w.values()) == target:
             w[k0] += 10.0 ** -nd * (1 if w[k0] >= 0 else -1)
         case['near_normalised'] = True
+    if rng.random() < 0.06 and 'near_normalised' not in case:
+        # one expensive asset whose allocation is a hair (less than 5e-5 of a unit, but more than a currency unit) short
+        # of a whole number of units: the quantity is that number minus one
+        a0 = assets[0]
+        p0 = float(round(10 ** rng.uniform(4.8, 5.7), 2))
+        k0 = rng.randint(1, 40)
+        short = rng.uniform(1.2, 5e-5 * p0 - 1.2)
+        for a in assets:
+            w[a] = 0.0
+        w[a0] = rng.choice([1.0, 0.37]) if long_only else rng.choice([1.0, -1.0, 0.5])
+        prices[a0] = p0
+        case['fee'] = ['zero']
+        if long_only:
+            case['buffer'] = 0.0
+        else:
+            case['leverage'] = 1.0
+        case['equity'] = equity = float(round((k0 + 1) * p0 - short, 2))
+        case['near_unit'] = True
     if rng.random() < 0.5 and len(w) > 1:
         # the weight dict as an alpha model may build it: keys in no particular order
         ks = list(w)
